@@ -62,7 +62,70 @@ func instances(name string) []cty.Value {
 	if !orig.IsNull() && orig.Type() != cty.DynamicPseudoType {
 		out = append(out, cty.NullVal(orig.Type()))
 	}
+	// the same value with another first element / attribute a
+	if _, ety, ok := withFirstUnknown(orig); ok {
+		var repl []cty.Value
+		switch {
+		case ety == cty.Number:
+			repl = []cty.Value{cty.NumberIntVal(9), cty.NumberIntVal(0)}
+		case ety == cty.String:
+			repl = []cty.Value{cty.StringVal("q"), cty.StringVal("b")}
+		case ety == cty.Bool:
+			repl = []cty.Value{cty.False, cty.True}
+		case ety.IsObjectType() && ety.HasAttribute("a") && ety.AttributeType("a") == cty.Number:
+			for _, n := range []int64{9, 0} {
+				m := map[string]cty.Value{}
+				first := firstOf(orig)
+				for k, v := range first.AsValueMap() {
+					m[k] = v
+				}
+				m["a"] = cty.NumberIntVal(n)
+				repl = append(repl, cty.ObjectVal(m))
+			}
+		}
+		for _, r := range repl {
+			if nv, ok := replaceFirst(orig, r); ok {
+				out = append(out, nv)
+			}
+		}
+	}
 	return out
+}
+
+func firstOf(v cty.Value) cty.Value {
+	ty := v.Type()
+	if ty.IsListType() || ty.IsTupleType() {
+		return v.AsValueSlice()[0]
+	}
+	return v.AsValueMap()["a"]
+}
+
+func replaceFirst(v, r cty.Value) (cty.Value, bool) {
+	defer func() { recover() }()
+	ty := v.Type()
+	switch {
+	case ty.IsListType() || ty.IsTupleType():
+		els := v.AsValueSlice()
+		if !els[0].Type().Equals(r.Type()) {
+			return v, false
+		}
+		els[0] = r
+		if ty.IsListType() {
+			return cty.ListVal(els), true
+		}
+		return cty.TupleVal(els), true
+	case ty.IsMapType() || ty.IsObjectType():
+		m := v.AsValueMap()
+		if !m["a"].Type().Equals(r.Type()) {
+			return v, false
+		}
+		m["a"] = r
+		if ty.IsMapType() {
+			return cty.MapVal(m), true
+		}
+		return cty.ObjectVal(m), true
+	}
+	return v, false
 }
 
 type abstraction struct {
@@ -72,6 +135,78 @@ type abstraction struct {
 }
 
 func numLE(a, b cty.Value) bool { return a.LessThanOrEqualTo(b).True() }
+
+// withFirstUnknown replaces the first element (list/tuple) or the attribute /
+// key "a" (object/map) of a known collection by an unknown of its type.
+func withFirstUnknown(v cty.Value) (cty.Value, cty.Type, bool) {
+	if v.IsNull() || !v.IsKnown() {
+		return v, cty.NilType, false
+	}
+	ty := v.Type()
+	switch {
+	case ty.IsListType() || ty.IsTupleType():
+		if v.LengthInt() == 0 {
+			return v, cty.NilType, false
+		}
+		els := v.AsValueSlice()
+		et := els[0].Type()
+		els[0] = cty.UnknownVal(et)
+		if ty.IsListType() {
+			return cty.ListVal(els), et, true
+		}
+		return cty.TupleVal(els), et, true
+	case ty.IsMapType() || ty.IsObjectType():
+		m := v.AsValueMap()
+		e, ok := m["a"]
+		if !ok {
+			return v, cty.NilType, false
+		}
+		m["a"] = cty.UnknownVal(e.Type())
+		if ty.IsMapType() {
+			return cty.MapVal(m), e.Type(), true
+		}
+		return cty.ObjectVal(m), e.Type(), true
+	}
+	return v, cty.NilType, false
+}
+
+// sameButFirst: c has orig's type and differs from it at most in the first element / attribute a.
+func sameButFirst(orig, c cty.Value) bool {
+	if c.IsNull() || !c.IsKnown() || !c.Type().Equals(orig.Type()) {
+		return false
+	}
+	ty := orig.Type()
+	switch {
+	case ty.IsListType() || ty.IsTupleType():
+		if c.LengthInt() != orig.LengthInt() {
+			return false
+		}
+		a, b := orig.AsValueSlice(), c.AsValueSlice()
+		for i := 1; i < len(a); i++ {
+			if !a[i].RawEquals(b[i]) {
+				return false
+			}
+		}
+		return true
+	case ty.IsMapType() || ty.IsObjectType():
+		a, b := orig.AsValueMap(), c.AsValueMap()
+		if len(a) != len(b) {
+			return false
+		}
+		for k, av := range a {
+			if k == "a" {
+				continue
+			}
+			bv, ok := b[k]
+			if !ok || !av.RawEquals(bv) {
+				return false
+			}
+		}
+		_, ok := b["a"]
+		return ok
+	}
+	return false
+}
 
 func abstractions(name string) []abstraction {
 	orig := pool.Vars[name]
@@ -105,6 +240,13 @@ func abstractions(name string) []abstraction {
 			abstraction{"unknown number < " + vfmt.V(orig) + "+1, > -100", cty.UnknownVal(ty).Refine().NotNull().NumberRangeUpperBound(orig.Add(cty.NumberIntVal(1)), false).NumberRangeLowerBound(cty.NumberIntVal(-100), false).NewValue(),
 				func(c cty.Value) bool { return !c.IsNull() && c.LessThan(orig.Add(cty.NumberIntVal(1))).True() }},
 		)
+	}
+	// part of the value unknown: the first element / the attribute "a" (the rest stays known)
+	if pv, ety, ok := withFirstUnknown(orig); ok {
+		out = append(out, abstraction{"first element / attribute a unknown (" + ety.FriendlyName() + ")", pv,
+			func(c cty.Value) bool { return sameButFirst(orig, c) }})
+	}
+	switch {
 	case ty.IsCollectionType():
 		n := orig.LengthInt()
 		out = append(out,
